@@ -371,4 +371,126 @@ theorem perm_with_extra {x y p q e : Pairs} (h : (x ++ p).Perm (y ++ q)) :
   simp only [List.count_append] at this ⊢
   omega
 
+/-! ### the compiler's line filter, applied by `ApplyDiff` to the payloads -/
+
+/-- one line through the compiler's filter -/
+def codecLine (l : Bytes) : Option Bytes :=
+  if skippedByParser (trimLeft l) then none else some (trimLeft l)
+
+theorem codecLines_eq_filterMap (file : List Bytes) : codecLines file = file.filterMap codecLine := by
+  unfold codecLines
+  induction file with
+  | nil => rfl
+  | cons l ls ih =>
+    rw [List.map_cons, List.filterMap_cons]
+    unfold codecLine
+    by_cases h : skippedByParser (trimLeft l) = true
+    · rw [List.filter_cons_of_neg (by simp [h]), if_pos h]; exact ih
+    · rw [List.filter_cons_of_pos (by simp [h]), if_neg h, ih]; rfl
+
+theorem codecLines_append (a b : List Bytes) :
+    codecLines (a ++ b) = codecLines a ++ codecLines b := by
+  simp only [codecLines_eq_filterMap, List.filterMap_append]
+
+theorem codecLines_perm {a b : List Bytes} (h : a.Perm b) : (codecLines a).Perm (codecLines b) := by
+  simp only [codecLines_eq_filterMap]
+  exact h.filterMap _
+
+theorem mem_codecLines {file : List Bytes} {p : Bytes} :
+    p ∈ codecLines file ↔ ∃ l ∈ file, trimLeft l = p ∧ skippedByParser p = false := by
+  unfold codecLines
+  rw [List.mem_filter, List.mem_map]
+  constructor
+  · rintro ⟨⟨l, hl, rfl⟩, hs⟩
+    exact ⟨l, hl, rfl, by simpa using hs⟩
+  · rintro ⟨l, hl, rfl, hs⟩
+    exact ⟨⟨l, hl, rfl⟩, by simp [hs]⟩
+
+theorem classify_cons (c : UInt8) (p : Bytes) :
+    classify (c :: p) = if c = 35 then .skip
+      else if c = 43 then payloadKind .plus p
+      else if c = 45 then payloadKind .minus p
+      else .bad := rfl
+
+theorem payloadOf_cons (op c : UInt8) (p : Bytes) :
+    payloadOf op (c :: p) = if c = op then some p else none := rfl
+
+theorem payloadKind_plus (p : Bytes) :
+    (match payloadKind .plus p with | .plus q => some q | _ => none) = codecLine p := by
+  unfold payloadKind codecLine
+  by_cases hs : skippedByParser (trimLeft p) = true
+  · simp only [if_pos hs]
+  · simp only [if_neg hs]
+
+theorem payloadKind_minus (p : Bytes) :
+    (match payloadKind .minus p with | .minus q => some q | _ => none) = codecLine p := by
+  unfold payloadKind codecLine
+  by_cases hs : skippedByParser (trimLeft p) = true
+  · simp only [if_pos hs]
+  · simp only [if_neg hs]
+
+theorem payloadKind_plus_minus (p : Bytes) :
+    (match payloadKind .plus p with | .minus q => some q | _ => none) = none := by
+  unfold payloadKind
+  by_cases hs : skippedByParser (trimLeft p) = true
+  · simp only [if_pos hs]
+  · simp only [if_neg hs]
+
+theorem payloadKind_minus_plus (p : Bytes) :
+    (match payloadKind .minus p with | .plus q => some q | _ => none) = none := by
+  unfold payloadKind
+  by_cases hs : skippedByParser (trimLeft p) = true
+  · simp only [if_pos hs]
+  · simp only [if_neg hs]
+
+theorem classify_plus_eq (l : Bytes) :
+    (match classify l with | .plus p => some p | _ => none) = (payloadOf 43 l).bind codecLine := by
+  cases l with
+  | nil => rfl
+  | cons c p =>
+    rw [classify_cons, payloadOf_cons]
+    by_cases h35 : c = 35
+    · subst h35; rfl
+    · rw [if_neg h35]
+      by_cases h43 : c = 43
+      · rw [if_pos h43, if_pos h43, Option.bind_some]; exact payloadKind_plus p
+      · rw [if_neg h43, if_neg h43, Option.bind_none]
+        by_cases h45 : c = 45
+        · rw [if_pos h45]; exact payloadKind_minus_plus p
+        · rw [if_neg h45]
+
+theorem classify_minus_eq (l : Bytes) :
+    (match classify l with | .minus p => some p | _ => none) = (payloadOf 45 l).bind codecLine := by
+  cases l with
+  | nil => rfl
+  | cons c p =>
+    rw [classify_cons, payloadOf_cons]
+    by_cases h35 : c = 35
+    · subst h35; rfl
+    · rw [if_neg h35]
+      by_cases h43 : c = 43
+      · subst h43
+        rw [if_pos rfl, if_neg (by decide), Option.bind_none]; exact payloadKind_plus_minus p
+      · rw [if_neg h43]
+        by_cases h45 : c = 45
+        · rw [if_pos h45, if_pos h45, Option.bind_some]; exact payloadKind_minus p
+        · rw [if_neg h45, if_neg h45, Option.bind_none]
+
+/-- the payloads `ApplyDiff` converts are the raw payloads seen through the compiler's filter -/
+theorem plusOf_eq_codecLines (diff : List Bytes) : plusOf diff = codecLines (rawPlusOf diff) := by
+  rw [codecLines_eq_filterMap]
+  unfold plusOf rawPlusOf
+  rw [List.filterMap_filterMap]
+  congr 1
+  funext l
+  exact classify_plus_eq l
+
+theorem minusOf_eq_codecLines (diff : List Bytes) : minusOf diff = codecLines (rawMinusOf diff) := by
+  rw [codecLines_eq_filterMap]
+  unfold minusOf rawMinusOf
+  rw [List.filterMap_filterMap]
+  congr 1
+  funext l
+  exact classify_minus_eq l
+
 end DnsVerif.ApplyDiff
